@@ -178,9 +178,9 @@ func freeBase(port int) int {
 	return port
 }
 
-func startNode(port int, engine, policy string) (*liveNode, error) {
+func startNode(port int, engine, policy string, v2 bool) (*liveNode, error) {
 	port = freeBase(port)
-	inst, err := startServer(port, NS, engine, policy)
+	inst, err := startServer(port, NS, engine, policy, v2)
 	if err != nil {
 		return nil, err
 	}
@@ -410,8 +410,8 @@ func (ln *liveNode) send(args [][]byte) (obs nodeObs, before, after dumpT) {
 }
 
 // startServer is srv.Start for one partition with a chosen expiration policy of the namespace.
-func startServer(portBase int, ns string, engine string, policy string) (*srv.Inst, error) {
-	if policy == "" || policy == common.DefaultExpirationPolicy {
+func startServer(portBase int, ns string, engine string, policy string, v2 bool) (*srv.Inst, error) {
+	if (policy == "" || policy == common.DefaultExpirationPolicy) && !v2 {
 		return srv.Start(portBase, ns, 1, engine)
 	}
 	tmpDir, err := os.MkdirTemp("", "verif-srv-")
@@ -425,6 +425,7 @@ func startServer(portBase int, ns string, engine string, policy string) (*srv.In
 		LocalRaftAddr: raftAddr, BroadcastAddr: "127.0.0.1", TickMs: 50, ElectionTick: 5,
 	}
 	opts.RocksDBOpts.EngineType = engine
+	opts.UseRedisV2 = v2
 	kv, err := server.NewServer(opts)
 	if err != nil {
 		return nil, err
@@ -440,8 +441,10 @@ func startServer(portBase int, ns string, engine string, policy string) (*srv.In
 	nsConf.EngType = rockredis.EngType
 	nsConf.PartitionNum = 1
 	nsConf.Replicator = 1
-	nsConf.ExpirationPolicy = policy
-	nsConf.DataVersion = common.ValueHeaderV1Str // wait_compact needs the value header
+	if policy == common.WaitCompactExpirationPolicy {
+		nsConf.ExpirationPolicy = policy
+		nsConf.DataVersion = common.ValueHeaderV1Str // wait_compact needs the value header
+	}
 	nsConf.RaftGroupConf.GroupID = 1000
 	nsConf.RaftGroupConf.SeedNodes = append(nsConf.RaftGroupConf.SeedNodes, replica)
 	n, err := kv.InitKVNamespace(1, nsConf, false)
